@@ -31,10 +31,13 @@ man = {
     "not_applicable": [],
     "notes": "See DESIGN.md and FRAMEWORK.md. ./check <id> quick|thorough [--replay <file>]. known_findings.txt lists repaired defects (fixed:) and recorded findings (known:).",
 }
+allcfg = {fn[:-5]: json.load(open(os.path.join(ROOT, "props.d", fn))) for fn in os.listdir(os.path.join(ROOT, "props.d")) if fn.endswith(".json")}
 for p in props:
     pid = p["id"]
     if pid in claimed:
         cfg = claimed[pid]
+        for sub in cfg.get("includes", []):
+            cfg["assumptions"] = cfg.get("assumptions", []) + [f"[{sub}] " + a for a in allcfg[sub].get("assumptions", [])]
         man["checks"].append({
             "property_id": pid,
             "quick_cmd": f"./check {pid} quick",
